@@ -242,11 +242,21 @@ def pure_nontrivial(kind):
     return lambda e: (json.dumps(e.get("a"), sort_keys=True)[:400], e.get("res")) if e.get("ev") == kind else None
 
 
+def integ_nontrivial(e):
+    import json
+    if e.get("ev") == "integ":
+        return (json.dumps(e.get("a"), sort_keys=True)[:400], e.get("res"))
+    if e.get("ev") in ("borrow", "withdraw", "kamino_withdraw", "drift_withdraw", "solend_withdraw", "kamino_deposit", "drift_deposit", "solend_deposit",
+                       "liquidate", "bankruptcy", "pulse_health", "tx"):
+        return (e.get("ev"), e.get("res"), e.get("err"))
+    return None
+
+
 PROPS = {
-    "C20": {"models": [{"name": "integ", "module": "Integ.tla", "cfg": "MC_Integ.cfg", "setup": "setups/empty.json"}],
-            "drivers": [{"name": "integ", "args": {"quick": [20000], "thorough": [2000000]}}],
-            "nontrivial": pure_nontrivial("integ"),
-            "rule": "each operand tuple passed to a real conversion function is one evaluation; all are non-trivial; distinct by (function, operands)",
+    "C20": {"models": [{"name": "integ", "module": "Integ.tla", "cfg": "MC_Integ.cfg", "setup": "setups/empty.json"}] + VENUE_MODELS,
+            "drivers": [{"name": "integ", "args": {"quick": [20000], "thorough": [2000000]}}] + KAMINO_DRIVERS,
+            "nontrivial": integ_nontrivial,
+            "rule": "each operand tuple passed to a real conversion function is one evaluation, so is every instruction executed on a world with venue-backed banks (the staleness rule is judged on what the program decides); all are non-trivial; distinct by (function, operands) / (instruction, result, error)",
             "min_nontrivial": 5000},
     "C18": {"models": [{"name": "curve", "module": "Curve.tla", "cfg": {"quick": "MC_CurveQuick.cfg", "thorough": "MC_CurveThorough.cfg"},
                         "setup": "setups/empty.json", "timeout": {"quick": 900, "thorough": 7200}}],
